@@ -177,6 +177,7 @@ class Model:
             if failed_write:
                 continue
             emits = []
+            pr = dtree.PathProv(fn, p)       # a local assigned in several arms denotes this path's assignment
             for b in p.blocks:
                 t = fn.blocks[b]["term"]
                 if t["k"] != "call":
